@@ -64,7 +64,7 @@ func (p *FinalLimitPlan) Batch(ctx *ExecuteCtx) ([][]Column, error) {
 		if nrows == 0 {
 			return nil, nil
 		}
-		if nrows <= restSkips {
+		if nrows < restSkips {
 			p.skips += nrows
 		} else {
 			p.skips += restSkips
@@ -202,7 +202,7 @@ func (p *LimitPlan) Batch(ctx *ExecuteCtx) ([]KVPair, error) {
 		if nrows == 0 {
 			return nil, nil
 		}
-		if nrows <= restSkips {
+		if nrows < restSkips {
 			p.skips += nrows
 		} else {
 			p.skips += restSkips
